@@ -255,6 +255,16 @@ def vmdk(p):
         desc, desc_ok = bytes.fromhex(p['desc_hex']), p.get('desc_ok', False)
     else:
         desc, desc_ok = vmdk_descriptor(p)
+    if p.get('desc_exact_fill'):
+        # the text fills its desc_num sectors exactly: no NUL padding, createType is the last line, no final newline
+        ctype = p.get('ctype', 'monolithicSparse')
+        lines = [l for l in desc.decode('ascii').split('\n') if l and not l.lower().startswith('createtype')]
+        tail = 'createType="%s"' % ctype
+        body_txt = '\n'.join(lines) + '\n'
+        room = desc_num * 512 - len(body_txt) - len(tail)
+        if room >= 2:
+            body_txt += '#' + 'x' * (room - 2) + '\n'
+            desc = (body_txt + tail).encode('ascii')
     hdr = struct.pack('<4sIIQQQQIQQ', magic, ver & 0xffffffff, 3, sectors, 128, desc_sec, desc_num, 512, 0, gd)
     hdr = hdr.ljust(512, b'\0')
     if p.get('hdr_filler_seed') is not None:
@@ -275,6 +285,9 @@ def vmdk(p):
                                      512, 0, 0x15).ljust(512, b'\0'))
         marker = bytearray(struct.pack('<QII', 1, 0, 3).ljust(512, b'\0'))
         eos = bytearray(struct.pack('<QII', 0, 0, 0).ljust(512, b'\0'))
+        for fld, val in (p.get('footer_over') or {}).items():
+            off, fmt_ = {'desc_sec': (28, '<Q'), 'desc_num': (36, '<Q'), 'ver': (4, '<I'), 'sectors': (12, '<Q')}[fld]
+            fhdr[off:off + struct.calcsize(fmt_)] = struct.pack(fmt_, val)
         if footer_pert:
             where = {'msize': (marker, 8, 4), 'mtype': (marker, 12, 4), 'mpad': (marker, 100, 1),
                      'fsig': (fhdr, 0, 4), 'fver': (fhdr, 4, 4), 'fdsec': (fhdr, 28, 8), 'fdnum': (fhdr, 36, 8),
@@ -292,6 +305,11 @@ def vmdk(p):
     hdr_ok = magic == b'KDMV' and ver in (1, 2, 3) and desc_sec == 1
     desc_end = 512 + region_len
     complete = len(img) >= desc_end and (not footer or len(img) >= desc_end + 1536)
+    over = p.get('footer_over') or {}
+    contradiction = footer and any((k == 'desc_sec' and v != desc_sec) or (k == 'desc_num' and v != desc_num) or
+                                   (k == 'ver' and v != ver) for k, v in over.items())
+    if contradiction:
+        footer_pert = footer_pert or 'footer_over'
     if not hdr_ok or desc_num == 0 or not desc_ok or footer_pert:
         safety = 'reject'
     elif not desc_fits:
